@@ -137,7 +137,7 @@ PROPS = {
         'assumptions': ["the console stream (print!) is observed only through the identical string handed to send_stdout_message; the binary's stdout is compared in C13"],
     },
     'C15': {
-        'lean': ['H8.Props.C15', 'H8.Lemmas.NoPanic', 'H8.Props.C15N'],
+        'lean': ['H8.Props.C15', 'H8.Lemmas.NoPanic', 'H8.Props.C15N', 'H8.Props.C15F'],
         'gen': ['consts', 'busmap', 'dispatch', 'buscost'],
         'runs': [{'mode': 'step', 'shards': 16, 'profile': 'release'}, {'mode': 'step', 'shards': 16, 'profile': 'checked'},
                  {'mode': 'run', 'shards': 16, 'profile': 'checked'}],
